@@ -27,6 +27,12 @@ use tokio::sync::{mpsc, oneshot};
 /* ---------------------------------------------------------------------------------------- */
 
 pub use crate::handler::{ConnectionDirection, Handler, HandlerIn, HandlerOut, WhoAreYouRef};
+
+/// Builds the reference a handler hands to the service when it needs the record of a node that
+/// sent a packet it could not read (scripted-handler worlds).
+pub fn who_are_you_ref(node_address: crate::node_info::NodeAddress, nonce: [u8; 12]) -> WhoAreYouRef {
+    WhoAreYouRef::verif_new(node_address, nonce)
+}
 pub use crate::kbucket::filter::Filter as TableFilter;
 pub use crate::lru_time_cache::LruTimeCache;
 pub use crate::query_pool::verif_reexports::{FindNodeQuery, FindNodeQueryConfig, QueryState};
